@@ -9,6 +9,29 @@ def gen_rt(seed, idx):
     maxms = 0
     maxto = maxex = 0
     if kind in (0, 1):
+        if rng.random() < 0.5:
+            # hand-over of the millisecond wheel (3000 slots) to the second ring: a waiter / a hold with a millisecond timer of
+            # 3 s and more is visited by the millisecond sweeper after (timer mod 3000) ms and re-queued on the second wheel.
+            # Here the request is ANSWERED (granted / cancelled / released) before that visit: its entry is a tombstone when
+            # the sweeper meets it, and nothing more may be heard of it at the original deadline.
+            visit = rng.choice([120, 250, 400, 700])
+            T = 3000 + visit + rng.choice([0, 0, 3000])
+            if rng.random() < 0.7:
+                steps.append({"op": "lock", "conn": 20, "key": 3, "lid": 30, "to": 0, "ex": rng.choice([5, 8]), "cnt": 0})
+                steps.append({"op": "lock", "conn": 21, "key": 3, "lid": 31, "tf": 0x0400, "ef": rng.choice([0, 0x0400]), "to": T, "ex": rng.choice([9, 12]), "cnt": 0, "nodup": True})
+                steps.append({"op": "sleep", "n": rng.choice([5, 20, 60])})
+                if rng.random() < 0.7:
+                    steps.append({"op": "unlock", "conn": 20, "key": 3, "lid": 30})            # the waiter is granted now
+                else:
+                    steps.append({"op": "unlock", "conn": 21, "key": 3, "lid": 31, "flag": 0x02})   # cancel-wait
+                maxto = max(maxto, T)
+            else:
+                steps.append({"op": "lock", "conn": 20, "key": 3, "lid": 30, "ef": 0x0400, "to": 0, "ex": T, "cnt": 0})
+                steps.append({"op": "sleep", "n": rng.choice([5, 20, 60])})
+                steps.append({"op": "unlock", "conn": 20, "key": 3, "lid": 30})
+                steps.append({"op": "lock", "conn": 22, "key": 3, "lid": 32, "to": 0, "ex": rng.choice([9, 12]), "cnt": 0})   # must survive the old deadline
+                maxex = max(maxex, T)
+            maxms = max(maxms, T)
         # ms holds and ms waiters on a few keys
         for _ in range(rng.randint(4, 9)):
             key = rng.choice([1, 2]); lid = rng.choice([1, 2, 3, 4])
@@ -58,5 +81,5 @@ def gen_rt(seed, idx):
         steps.append({"op": "unlock", "conn": 2, "key": 2, "lid": 2})
         return {"name": f"rt-role-{seed}-{idx}", "cfg": {}, "steps": steps, "complete": True}
     # a request queued by the last step is granted within its own wait and then holds for its own expiry
-    steps.append({"op": "sleep", "n": max(min(maxms, 3400), maxto + maxex) + 1300})
+    steps.append({"op": "sleep", "n": max(min(maxms, 3400), maxto + maxex if maxto + maxex < 7000 else max(maxto, maxex)) + 1300})
     return {"name": f"rt-{kind}-{seed}-{idx}", "cfg": {}, "steps": steps, "complete": True}
